@@ -68,8 +68,28 @@ pub fn run_model(driver: &str, lines: &[String]) -> Vec<String> {
 }
 
 pub fn run_impl(lines: &[String]) -> Vec<String> {
+    run_impl2(lines).0
+}
+
+/// outputs of the implementation, and the lines to give the model (some abstract lines only
+/// become concrete once executed)
+pub fn run_impl2(lines: &[String]) -> (Vec<String>, Vec<String>) {
     let mut real = Real::new();
-    lines.iter().map(|l| real.step(l)).collect()
+    let mut outs = vec![];
+    let mut mlines = vec![];
+    for l in lines {
+        real.model_line = None;
+        outs.push(real.step(l));
+        mlines.push(real.model_line.take().unwrap_or_else(|| l.clone()));
+    }
+    (outs, mlines)
+}
+
+/// both sides on one case
+pub fn run_both(driver: &str, lines: &[String]) -> (Vec<String>, Vec<String>) {
+    let (i, ml) = run_impl2(lines);
+    let m = run_model(driver, &ml);
+    (i, m)
 }
 
 /// error kinds are soft: only `err` is compared
@@ -120,14 +140,12 @@ pub fn shrink(driver: &str, lines: &[String], budget: usize) -> Vec<String> {
     let mut cur: Vec<String> = lines.to_vec();
     let mut tries = 0;
     let fails = |ls: &[String]| -> bool {
-        let i = run_impl(ls);
-        let m = run_model(driver, ls);
+        let (i, m) = run_both(driver, ls);
         first_mismatch(ls, &i, &m).is_some()
     };
     // first truncate after the first mismatch
     {
-        let i = run_impl(&cur);
-        let m = run_model(driver, &cur);
+        let (i, m) = run_both(driver, &cur);
         if let Some((k, _)) = first_mismatch(&cur, &i, &m) {
             cur.truncate(k + 1);
         }
@@ -185,7 +203,7 @@ pub struct Outcome {
 pub fn run_cases(driver: &str, cases: Vec<Case>, workers: usize, max_shrink: usize) -> Outcome {
     let n = cases.len();
     let cases = Arc::new(cases);
-    let results: Arc<Mutex<Vec<Option<Vec<String>>>>> = Arc::new(Mutex::new(vec![None; n]));
+    let results: Arc<Mutex<Vec<Option<(Vec<String>, Vec<String>)>>>> = Arc::new(Mutex::new(vec![None; n]));
     let next = Arc::new(Mutex::new(0usize));
     let mut hs = vec![];
     for _ in 0..workers.max(1) {
@@ -202,17 +220,18 @@ pub fn run_cases(driver: &str, cases: Vec<Case>, workers: usize, max_shrink: usi
             if i >= cases.len() {
                 break;
             }
-            let out = run_impl(&cases[i].lines);
+            let out = run_impl2(&cases[i].lines);
             results.lock().unwrap()[i] = Some(out);
         }));
     }
-    // model side, one driver process for everything
-    let all: Vec<String> = cases.iter().flat_map(|c| c.lines.iter().cloned()).collect();
-    let model_all = run_model(driver, &all);
     for h in hs {
         h.join().expect("worker panicked");
     }
     let results = Arc::try_unwrap(results).unwrap().into_inner().unwrap();
+    // model side, one driver process for everything (after the implementation: some lines are
+    // made concrete by executing them)
+    let all: Vec<String> = results.iter().flat_map(|r| r.as_ref().unwrap().1.iter().cloned()).collect();
+    let model_all = run_model(driver, &all);
 
     let mut stats = Stats::default();
     let mut mismatches = vec![];
@@ -221,7 +240,7 @@ pub fn run_cases(driver: &str, cases: Vec<Case>, workers: usize, max_shrink: usi
     let mut oracle_checked = 0usize;
     let mut off = 0;
     for (ci, c) in cases.iter().enumerate() {
-        let imp = results[ci].as_ref().unwrap();
+        let imp = &results[ci].as_ref().unwrap().0;
         let model: Vec<String> = model_all.get(off..(off + c.lines.len()).min(model_all.len())).map(|s| s.to_vec()).unwrap_or_default();
         off += c.lines.len();
         stats.cases += 1;
@@ -274,6 +293,11 @@ pub fn run_cases(driver: &str, cases: Vec<Case>, workers: usize, max_shrink: usi
             });
             if !ok && oracle_failures.len() < 50 {
                 let mut tags = ex.tags.clone();
+                for tok in got.split(' ') {
+                    if let Some(k) = tok.strip_suffix("=1") {
+                        tags.push(k.to_string());
+                    }
+                }
                 tags.push(if got.starts_with("ok") { "accepted".into() } else if got.starts_with("panic") { "panic".into() } else { "rejected".into() });
                 oracle_failures.push(serde_json::json!({
                     "kind": "impl-oracle", "oracle": ex.oracle, "tags": tags,
@@ -295,8 +319,7 @@ pub fn run_cases(driver: &str, cases: Vec<Case>, workers: usize, max_shrink: usi
             };
             if mismatches.len() < max_shrink && c.lines.first().map(|s| s == "reset").unwrap_or(false) {
                 let small = shrink(driver, &c.lines, 120);
-                let i = run_impl(&small);
-                let m = run_model(driver, &small);
+                let (i, m) = run_both(driver, &small);
                 if let Some((k2, kind2)) = first_mismatch(&small, &i, &m) {
                     mm.lines = small.clone();
                     mm.line_no = k2;
